@@ -118,6 +118,32 @@ def unwrap(rule) -> List[Tuple[Any, List[str]]]:
     return [(b, probs) for b in out] if out else [(None, probs)]
 
 
+def independent_shifts(rule) -> Optional[Tuple[int, ...]]:
+    """The reliance of a rule on its children derived from the domain's own minimum sizes
+    (not from the library's shifts()): union 0; product: sum of the minimum sizes minus the
+    child's own; reverse rule: derived from the forward rule; equivalence forms: 0."""
+    from comb_spec_searcher import CartesianProductStrategy, DisjointUnionStrategy
+    from comb_spec_searcher.strategies.rule import EquivalencePathRule, EquivalenceRule, ReverseRule, VerificationRule
+
+    if isinstance(rule, VerificationRule):
+        return ()
+    if isinstance(rule, (EquivalencePathRule, EquivalenceRule)):
+        return (0,) * len(rule.children)
+    if isinstance(rule, ReverseRule):
+        o = independent_shifts(rule.original_rule)
+        if o is None:
+            return None
+        i = rule.idx
+        return (-o[i],) + tuple(s - o[i] for j, s in enumerate(o) if j != i)
+    strat = rule.strategy
+    if isinstance(strat, CartesianProductStrategy):
+        mins = [ch.minimum_size_of_object() for ch in rule.children]
+        return tuple(sum(mins) - m for m in mins)
+    if isinstance(strat, DisjointUnionStrategy):
+        return (0,) * len(rule.children)
+    return None
+
+
 def allowed_strategies(pack, classes: Iterable[dw.W]) -> List[Any]:
     from comb_spec_searcher.strategies.rule import AbstractRule
     from comb_spec_searcher.strategies.strategy import AbstractStrategy, StrategyFactory
@@ -205,7 +231,9 @@ def structure_problems(spec, start: dw.W, pack, raw_rules: Optional[Sequence[Any
 
     keys = []
     for c, rule in rd.items():
-        sh = tuple(rule.shifts())
+        sh = independent_shifts(rule)
+        if sh is None:
+            sh = tuple(rule.shifts())
         if len(sh) != len(rule.children):
             probs.append(f"shifts {sh} do not match the children of the rule for {c!r}")
             continue
